@@ -53,6 +53,10 @@ static std::atomic<long long> fakeNs{-1};               // < 0: real clock
 // While a probe window is open the interposer counts who reads CLOCK_REALTIME: the thread that opened
 // the window (an evaluation of the *direct* timed form calls time::now() on the caller's thread) or
 // another thread (the poller of the *periodic* form).  Structural, not timing: see the `solve` op.
+static pthread_t harnessThread;
+static bool harnessThreadSet = false;
+static std::atomic<long long> syncTarget{-1};
+static std::atomic<long> syncReads{0};
 static std::atomic<int> probeOpen{0};
 static pthread_t probeMain;
 static std::atomic<long> probeMainReads{0};
@@ -70,6 +74,9 @@ extern "C" int clock_gettime(clockid_t id, struct timespec *ts) noexcept
             ++probeForeignReads;
     }
     long long f = fakeNs.load();
+    if (id == CLOCK_REALTIME && f >= 0 && harnessThreadSet && !pthread_equal(pthread_self(), harnessThread) &&
+        f == syncTarget.load())
+        ++syncReads;   // a thread other than the harness's (a poller) has read the *current* script clock
     if (id == CLOCK_REALTIME && f >= 0)
     {
         ts->tv_sec = f / 1000000000LL;
@@ -88,6 +95,7 @@ struct LeafScript
     size_t base = 0;
     bool tail = false;
     std::atomic<size_t> calls{0};
+    std::atomic<size_t> foreignCalls{0};   // invocations made by a thread other than the harness thread
     bool async = false;
     // gate: the invocation with index gateAt blocks on entry until it is released and then returns
     // gateVerdict (handshake-driven interleavings with a poller thread; no timing involved)
@@ -99,6 +107,8 @@ struct LeafScript
     {
         std::unique_lock<std::mutex> g(m);
         size_t k = calls++;
+        if (!pthread_equal(pthread_self(), harnessThread))
+            ++foreignCalls;
         if (gateAt >= 0 && k == (size_t)gateAt)
         {
             inside = true;
@@ -208,6 +218,61 @@ public:
     bool value = false;
 };
 
+// Planner::solve(const PlannerTerminationConditionFn &, double checkInterval): the probe evaluates what it is
+// handed N times on the harness thread.  Direct form: the scripted predicate runs N times on this thread and
+// the answers are its next N values.  Periodic form: it does not run on this thread at all; after a bounded
+// wait for two invocations from another thread (so one poll has been stored) N more evaluations give `vals`.
+class ProbeFnPlanner : public ob::Planner
+{
+public:
+    static const int N = 3;
+    ProbeFnPlanner(const ob::SpaceInformationPtr &si, bool mirrorOk, std::shared_ptr<LeafScript> l)
+      : ob::Planner(si, "probefn"), mirrorOk_(mirrorOk), leaf_(std::move(l)) {}
+    using ob::Planner::solve;
+    ob::PlannerStatus solve(const PTC &ptc) override
+    {
+        if (mirrorOk_)
+        {
+            period = mirror(ptc)->period_;
+            hasThread = mirror(ptc)->thread_ != nullptr;
+        }
+        size_t calls0 = leaf_->calls.load(), foreign0 = leaf_->foreignCalls.load();
+        std::string v;
+        for (int i = 0; i < N; ++i)
+            v += ptc() ? '1' : '0';
+        size_t here = (leaf_->calls.load() - calls0) - (leaf_->foreignCalls.load() - foreign0);
+        if (here == (size_t)N)
+        {
+            form = 0;
+            vals = v;
+            ranHere = N;
+        }
+        else if (here == 0)
+        {
+            auto t0 = std::chrono::steady_clock::now();
+            while (leaf_->foreignCalls.load() < foreign0 + 2 &&
+                   std::chrono::steady_clock::now() - t0 < std::chrono::seconds(10))
+                std::this_thread::sleep_for(std::chrono::microseconds(200));
+            if (leaf_->foreignCalls.load() >= foreign0 + 2)
+            {
+                form = 1;
+                for (int i = 0; i < N; ++i)
+                    vals += ptc() ? '1' : '0';
+            }
+        }
+        if (mirrorOk_ && form >= 0 && (form == 1) != hasThread)
+            form = -1;
+        return ob::PlannerStatus::TIMEOUT;
+    }
+    bool mirrorOk_;
+    std::shared_ptr<LeafScript> leaf_;
+    int form = -1;
+    int ranHere = 0;
+    std::string vals;
+    double period = 0;
+    bool hasThread = false;
+};
+
 // ------------------------------------------------------------------------------ specs
 struct LeafSpec
 {
@@ -248,15 +313,20 @@ static std::optional<bool> parseBit(const std::string &s)
 
 int main()
 {
+    harnessThread = pthread_self();
+    harnessThreadSet = true;
     ompl::msg::noOutputHandler();
     std::string line;
     if (!vp::readLine(line))
         return 2;
     auto hdr = vp::tokens(line);
     bool fake;
-    if (hdr.size() == 2 && hdr[0] == "ptc" && hdr[1] == "clock=fake")
+    // an optional third token (timed=wrap|timed=sat) tells the *model* which timed arithmetic to follow
+    const bool hdrOk = (hdr.size() == 2 || (hdr.size() == 3 && (hdr[2] == "timed=wrap" || hdr[2] == "timed=sat"))) &&
+                       hdr[0] == "ptc";
+    if (hdrOk && hdr[1] == "clock=fake")
         fake = true;
-    else if (hdr.size() == 2 && hdr[0] == "ptc" && hdr[1] == "clock=real")
+    else if (hdrOk && hdr[1] == "clock=real")
         fake = false;
     else
     {
@@ -265,7 +335,10 @@ int main()
     }
     const bool mirrorOk = mirrorSelfTest();
     if (fake)
+    {
+        syncTarget = FAKE_BASE;
         fakeNs = FAKE_BASE;
+    }
 
     auto space = std::make_shared<ob::RealVectorStateSpace>(1);
     space->setBounds(0, 1);
@@ -311,7 +384,8 @@ int main()
         {
             const std::string &name = t[1];
             // 1. well-formedness
-            enum { LEAF, OR, AND, COSTCONV, TIMEDP } form = LEAF;
+            enum { LEAF, OR, AND, COSTCONV, TIMEDP, TIMEDD } form = LEAF;
+            long long durNs = 0;
             std::optional<LeafSpec> leaf;
             std::optional<double> period;
             double dur = 0, itv = 0, eps = 0;
@@ -342,6 +416,16 @@ int main()
                     itv = *vp::parseBits(t[4]);
                 }
             }
+            else if (t[2] == "timedd")
+            {
+                // the time::duration overload, handed whole nanoseconds
+                ok = t.size() == 4 && vp::parseInt(t[3]);
+                if (ok)
+                {
+                    form = TIMEDD;
+                    durNs = *vp::parseInt(t[3]);
+                }
+            }
             else if (t[2] == "costconv")
             {
                 ok = t.size() == 5 && vp::parseNat(t[3]) && vp::parseBits(t[4]);
@@ -370,6 +454,9 @@ int main()
             }
             else if (form == TIMEDP)
                 names.emplace(name, ob::timedPlannerTerminationCondition(dur, itv));
+            else if (form == TIMEDD)
+                names.emplace(name, ob::timedPlannerTerminationCondition(
+                                        std::chrono::duration_cast<ompl::time::duration>(std::chrono::nanoseconds(durNs))));
             else if (form == COSTCONV)
             {
                 // the object is used as Planner::solve would use it: through its PlannerTerminationCondition
@@ -520,6 +607,8 @@ int main()
         else if (op == "clock" && t.size() == 2 && vp::parseInt(t[1]))
         {
             if (!fake) { std::cout << "bad-op\n"; continue; }
+            syncTarget = FAKE_BASE + *vp::parseInt(t[1]);
+            syncReads = 0;
             fakeNs = FAKE_BASE + *vp::parseInt(t[1]);
             std::cout << "ok\n";
         }
@@ -600,6 +689,39 @@ int main()
             std::cout << "polled=" << (p.form < 0 ? "?" : (p.form ? "1" : "0"))
                       << " period=" << (mirrorOk ? vp::bits(p.period) : std::string("?"))
                       << " v=" << (p.value ? 1 : 0) << "\n";
+        }
+        else if (op == "solvefn" && t.size() == 3 && vp::parseNat(t[1]) && vp::parseBits(t[2]))
+        {
+            auto l = leafOf(*vp::parseNat(t[1]));
+            double itv = *vp::parseBits(t[2]);
+            if (itv > 0.0)
+                l->async = true;
+            ProbeFnPlanner p(si, mirrorOk, l);
+            static_cast<ob::Planner &>(p).solve([l] { return l->invoke(); }, itv);
+            std::cout << "polled=" << (p.form < 0 ? "?" : (p.form ? "1" : "0"))
+                      << " period=" << (mirrorOk ? vp::bits(p.period) : std::string("?"))
+                      << " vals=" << (p.form < 0 ? std::string("?") : p.vals)
+                      << " inv=" << (p.ranHere ? std::to_string(*vp::parseNat(t[1])) + ":" + std::to_string(p.ranHere) : std::string("-"))
+                      << "\n";
+        }
+        else if (op == "period" && t.size() == 2)
+        {
+            // the period the factory handed to the impl (structural read through the self-tested mirror): -1 for
+            // the one-argument constructor, the clamped interval for timedPlannerTerminationCondition(d, i)
+            auto a = names.find(t[1]);
+            if (a == names.end()) { std::cout << "unknown\n"; continue; }
+            std::cout << "period=" << (mirrorOk ? vp::bits(mirror(a->second)->period_) : std::string("?")) << "\n";
+        }
+        else if (op == "sync" && t.size() == 1)
+        {
+            // until a poller thread has read the script's current clock twice since now: its first such
+            // reading has then been stored in the cache (program order: store, then the next call)
+            if (!fake) { std::cout << "bad-op\n"; continue; }
+            syncReads = 0;
+            auto t0 = std::chrono::steady_clock::now();
+            while (syncReads.load() < 2 && std::chrono::steady_clock::now() - t0 < std::chrono::seconds(10))
+                std::this_thread::sleep_for(std::chrono::microseconds(200));
+            std::cout << (syncReads.load() >= 2 ? "ok" : "timeout") << "\n";
         }
         else
             std::cout << "bad-op\n";
